@@ -26,6 +26,8 @@ DECIDED_R7 = ('Round 7: no mutator call on a caught / received response object.'
 DECIDED = DECIDED + ' ' + DECIDED_R7
 DECIDED_R8 = ("Round 8: the handlers of wsgi's outer try read nothing from the per-thread objects; every container BaseResponse.__init__ stores is made by that call; apply() only reads the applied response.")
 DECIDED = DECIDED + ' ' + DECIDED_R8
+DECIDED_R9 = ('Round 9: a constant flipped on a class attribute is a latch; the interpreter-slot clause of C08.d (c, d).')
+DECIDED = DECIDED + ' ' + DECIDED_R9
 NOT_DECIDED = ('equality of each response with the fresh-application response over all histories; liveness counts at run time '
                '(only the structural retention paths above).')
 ASSUMPTIONS = ['request.__init__ / response.__init__ themselves do not raise', 'user handlers are outside the claim']
